@@ -31,7 +31,7 @@ pub fn run(ctx: &mut Ctx) {
             continue;
         }
         // only programs with at least one function whose user params are scalars
-        if !p.funcs.iter().any(|f| input_vectors(f, true, 3, 16).is_some()) {
+        if !p.funcs.iter().any(|f| input_vectors(p, f, true, 3, 16).is_some()) {
             continue;
         }
         n += 1;
@@ -57,15 +57,15 @@ pub fn run(ctx: &mut Ctx) {
                         ctx.count("mutants_accepted", 1);
                         let Ok(compiled) = make_runner(q.clone(), &Cfg::DEFAULT) else { continue };
                         for func in &q.funcs {
-                            let Some(inputs) = input_vectors(func, true, 3, 16) else { continue };
+                            let Some(inputs) = input_vectors(&q, func, true, 3, 16) else { continue };
                             let required = compiled.runner.initial_required_gas(func).unwrap_or(0);
                             for args in &inputs {
                                 for gas in [100_000_000usize, required + 100] {
-                                    let case = || json!({"program":name,"mutation":m.describe(),"function":fname(func),"args":felts_str(args),"gas":gas,"sierra":q.to_string()});
+                                    let case = || json!({"program":name,"mutation":m.describe(),"function":fname(func),"args":args_str(args),"gas":gas,"sierra":q.to_string()});
                                     if !ctx.sub(case) {
                                         continue;
                                     }
-                                    ctx.distinct(&(name.as_str(), ci, k, fname(func), args.iter().map(|f| f.to_bytes_be()).collect::<Vec<_>>(), gas));
+                                    ctx.distinct(&(name.as_str(), ci, k, fname(func), args_str(args), gas));
                                     if let Err((loc, msg)) = guarded(|| run_monitored(ctx, mon, &compiled, None, func, args, gas, &case)) {
                                         ctx.violation(crate::core::panic_sig(&loc, &msg), format!("runner panicked at {loc}: {msg}"), case());
                                     }
